@@ -66,6 +66,35 @@ class EnumAdvance:
                         return "move"
         return None
 
+    def _return_bound(self, b, l, depth=0):
+        """local `l` is the return slot, or (the return slot of a spliced helper, see lib/inline.py) a local whose every use is a whole move
+        into a return-bound local"""
+        if l == 0:
+            return True
+        if depth > 4:
+            return False
+        uses = moves = 0
+        targets = []
+        for bl in b["blocks"]:
+            for s_ in bl["stmts"]:
+                if s_["k"] != "Assign":
+                    continue
+                rv = s_["rv"]
+                ops = mir._operands(rv)
+                for o in ops:
+                    if o["k"] in ("Copy", "Move") and o["place"]["local"] == l:
+                        uses += 1
+                        if rv["k"] == "Use" and not o["place"]["proj"] and not s_["place"]["proj"]:
+                            moves += 1
+                            targets.append(s_["place"]["local"])
+                if rv["k"] in ("Ref", "CopyForDeref", "RawPtr", "Discriminant") and rv["place"]["local"] == l:
+                    uses += 1
+            t_ = bl["term"]
+            for a in (t_.get("args") or []):
+                if a["k"] in ("Copy", "Move") and a["place"]["local"] == l:
+                    uses += 1
+        return uses > 0 and uses == moves and all(self._return_bound(b, x, depth + 1) for x in targets)
+
     def block_effect(self, p, b, g, sa, bi):
         """'A' advance, 'U' reset, 'E' error-return path, None"""
         bl = b["blocks"][bi]
@@ -79,7 +108,7 @@ class EnumAdvance:
             return None
         nm = mir.callee_name(t)
         cal = mir.callee_path(t)
-        if nm in ("err", "from_residual") and t["dest"]["local"] == 0:
+        if nm in ("err", "from_residual") and not t["dest"]["proj"] and self._return_bound(b, t["dest"]["local"]):
             return "E"
         if cal in self.bodies and any(a["k"] in ("Copy", "Move") and self._derives(g, a, sa) for a in t["args"]):
             k = self.kind.get(cal)
